@@ -416,6 +416,16 @@ func writeFFT(repoRoot, srcRoot, verifRoot string, check bool) int {
 			stale += installText(filepath.Join(repoRoot, strings.TrimPrefix(c.Pkg, "./"), "zz_verif_contracts_domain.go"), s, check)
 		}
 	}
+	if d, err := os.ReadFile(filepath.Join(verifRoot, "contracts", "fft", "scaling.go.tmpl")); err == nil {
+		for _, c := range fftCfgs(srcRoot) {
+			src, _ := os.ReadFile(filepath.Join(srcRoot, strings.TrimPrefix(c.Pkg, "./"), "fft.go"))
+			if !strings.Contains(string(src), "a[i].Mul(&a[i], &domain.cosetTableInv[i]).") || !strings.Contains(string(src), "v1.Mul(v1, v2)") {
+				continue // an entry point of another shape: not under this contract
+			}
+			s := strings.ReplaceAll(string(d), "fr.Element", c.Elem+".Element")
+			stale += installText(filepath.Join(repoRoot, strings.TrimPrefix(c.Pkg, "./"), "zz_verif_contracts_scaling.go"), s, check)
+		}
+	}
 	return stale
 }
 
